@@ -55,6 +55,10 @@ def _matrix(ctx, kind, tag=""):
         for x in s:
             ctx.assume(l_or(x >= 0.1, x <= -0.1))
         ctx.assume(l_or(s[0] >= 1.01, s[0] <= 0.99))  # away from the identity shortcuts
+        if ctx.params.get("similar_or_far"):
+            # either exactly a scaled reflection (equal squares) or clearly anisotropic: the 1e-8 band of apply_transform's similarity test is excluded
+            q = [x * x for x in s]
+            ctx.assume(l_or(l_and(q[0] == q[1], q[1] == q[2]), q[0] - q[1] >= 1e-3, q[1] - q[0] >= 1e-3, q[1] - q[2] >= 1e-3, q[2] - q[1] >= 1e-3))
         for i in range(3):
             M[i, i] = s[i]
             Mi[i, i] = 1 / s[i]
